@@ -1,14 +1,14 @@
 (* C03 — A successfully loaded module is structurally well-formed. *)
 From Coq Require Import ZArith List Lia Bool.
 Import ListNotations.
-From LX Require Import Base.ListAux Generated.Consts Model.ModuleWf Model.Gate Proofs.GateProofs.
+From LX Require Import Base.ListAux Generated.Consts Model.ModuleWf Model.Gate Proofs.GateProofs Model.SeqScan Proofs.SeqScanProofs.
 Local Open Scope Z_scope.
 
 (* Whatever a loader leaves behind (arbitrary integers in every field), if the sanity gate, the epilogue and
    prepare_scan let it through, and the loader kept the facts the gate does not establish (loader_postb: tables
    allocated to the declared counts, rows >= 1 from the allocation helpers, sample blocks from the sample loader,
    non-negative envelope indices, NUL-terminated names), then the module exposed is well-formed in every clause of
-   the property except the sequence clause, which the scan establishes (C18/C02). *)
+   the property except the sequence clause, which libxmp_scan_sequences establishes (sequence_table_wf below). *)
 Theorem gate_establishes_wf : forall r m, finish r = Some m -> loader_postb r = true -> wf_noseq m = true.
 Proof. exact gate_wf. Qed.
 Print Assumptions gate_establishes_wf.
@@ -66,3 +66,42 @@ Example c03_nonvacuous :
   let r := {| r_m := m0; r_has_xxp := true; r_has_xxt := true |} in
   loader_postb r = true /\ (exists m, finish r = Some m /\ d_spd m = 6 /\ d_bpm m = 20 /\ d_rst m = 0 /\ public_wfb m = true).
 Proof. cbv zeta. split; [vm_compute; reflexivity|]. eexists. split; [vm_compute; reflexivity|]. vm_compute. repeat split. Qed.
+
+(* ---------------------------------------------------------------- the sequence clause --------------------------------- *)
+
+(* The loop of libxmp_scan_sequences, for any scan_module whatsoever that marks its own entry point in sequence_control and never
+   un-marks an order (hook H6 checks exactly that on every real call): unless the first scan finds nothing (the load fails), the
+   module gets between 1 and MAX_SEQUENCES sequences, as many entry points and durations, every entry point inside the order list,
+   the entry points pairwise distinct with the first one 0, and the durations non-negative (positive for all but the first). *)
+Theorem sequence_table_wf : forall (St : Type) (scan : St -> Z -> Z -> list Z -> (Z * list Z) * St) (len : Z),
+  1 <= len <= 256 ->
+  (forall st ep seq ctrl, 0 <= ep < len -> 0 <= seq < C_MAX_SEQUENCES -> length ctrl = 256%nat ->
+     length (snd (fst (scan st ep seq ctrl))) = 256%nat /\
+     nth (Z.to_nat ep) (snd (fst (scan st ep seq ctrl))) UNMARKED <> UNMARKED /\
+     (forall i, nth i ctrl UNMARKED <> UNMARKED -> nth i (snd (fst (scan st ep seq ctrl))) UNMARKED <> UNMARKED)) ->
+  forall st n eps durs st', scan_sequences St scan st len = Some (n, eps, durs, st') ->
+  seqs_wfb len n eps durs = true /\ hd 0 eps = 0 /\ (forall d, In d (tl durs) -> 0 < d).
+Proof. exact scan_sequences_wf. Qed.
+Print Assumptions sequence_table_wf.
+
+(* the loop always ends by itself: its fuel (one more than the number of orders) never runs out *)
+Theorem sequence_scan_terminates : forall (St : Type) (scan : St -> Z -> Z -> list Z -> (Z * list Z) * St) (len : Z),
+  1 <= len <= 256 ->
+  (forall st ep seq ctrl, 0 <= ep < len -> 0 <= seq < C_MAX_SEQUENCES -> length ctrl = 256%nat ->
+     length (snd (fst (scan st ep seq ctrl))) = 256%nat /\
+     nth (Z.to_nat ep) (snd (fst (scan st ep seq ctrl))) UNMARKED <> UNMARKED /\
+     (forall i, nth i ctrl UNMARKED <> UNMARKED -> nth i (snd (fst (scan st ep seq ctrl))) UNMARKED <> UNMARKED)) ->
+  forall st, 0 <= fst (fst (scan st 0 0 (repeat UNMARKED 256))) -> scan_sequences St scan st len <> None.
+Proof. exact scan_sequences_fuel. Qed.
+Print Assumptions sequence_scan_terminates.
+
+(* non-vacuity: five orders; a scan that marks its entry point and the next order, with durations 10, 0 (dropped), 7 *)
+Example c03_seq_nonvacuous :
+  let scan := fun (st : list Z) (ep seq : Z) (ctrl : list Z) =>
+    let mark := fun c => upd (upd c (Z.to_nat ep) seq) (Z.to_nat (ep + 1)) seq in
+    ((hd 0 st, mark ctrl), tl st) in
+  match scan_sequences (list Z) scan [10; 0; 7] 5 with
+  | Some (n, eps, durs, _) => n = 2 /\ eps = [0; 4] /\ durs = [10; 7] /\ seqs_wfb 5 n eps durs = true
+  | None => False
+  end.
+Proof. vm_compute. repeat split; reflexivity. Qed.
